@@ -31,6 +31,7 @@ typedef struct cell {
 	int v6;        /* IPv6 transport between client and server */
 	int pre;       /* slots taken by other parties before the client starts: the client's userid */
 	int inj;       /* C02: the deviations are tun arrivals timed against the client's own datagrams (clean path otherwise) */
+	int stale;     /* C01: one upstream fragment is duplicated and the copy arrives `stale` packets later; contents paired (see stale_workload) */
 } cell;
 
 static const char *QT[8] = { "NULL", "PRIVATE", "TXT", "SRV", "MX", "CNAME", "A", "" };
@@ -71,6 +72,7 @@ static void cell_desc(const cell *c, char *b, size_t n)
 		 c->up, c->fs, c->ml, c->lazy, c->raw, LAT[c->lat][0], LAT[c->lat][1], c->warm, c->wl, c->two, c->v6 ? " ipv6" : "");
 	if (c->pre && k < (int)n) k += snprintf(b + k, n - k, " slot=%d", c->pre);
 	if (c->inj && k < (int)n) k += snprintf(b + k, n - k, " timed-tun-arrivals");
+	if (c->stale && k < (int)n) k += snprintf(b + k, n - k, " first upstream fragment duplicated, copy %d packets late (packets %s apart), packets 0 and 8 Adler-paired", c->stale % 10, c->stale >= 10 ? "5 s" : "500 ms");
 	if (c->rl && k < (int)n) {
 		static const char *CS[] = { "keep", "lower", "upper", "random" }, *E8[] = { "clean", "strip", "reject" }, *PU[] = { "keep", "+->-", "_->-" };
 		const ns_relay *r = &RELAYS[c->rl - 1];
@@ -252,7 +254,7 @@ static const wpk WL6[] = { { 1, 700, 100, 0, A_SRV }, { 0, 700, 150, 0, A_CLA },
 /* second session in a re-used slot (succession cells): client B has A's old tunnel address */
 static const wpk WL7[] = { { 2, 60, 100, 0, A_SRV }, { 0, 1100, 150, 0, A_CLA }, { 2, 1100, 160, 0, A_SRV }, { 0, 200, 170, 1, A_CLA }, { 2, 300, 1500, 0, A_SRV }, { 0, 300, 1600, 0, A_CLA },
 	{ 2, 64, 2500, 1, A_SRV }, { 0, 64, 2600, 1, A_CLA } };
-static const struct { const wpk *p; int n; } WLS[8] = { { WL0, 14 }, { WL1, 12 }, { WL2, 20 }, { WL3, 8 }, { WL0, 0 }, { WL5, 6 }, { WL6, 6 }, { WL7, 8 } };
+static const struct { const wpk *p; int n; } WLS[9] = { { WL0, 14 }, { WL1, 12 }, { WL2, 20 }, { WL3, 8 }, { WL0, 0 }, { WL5, 6 }, { WL6, 6 }, { WL7, 8 }, { WL0, 0 } };
 
 static int up_chunk_cap, down_frag_cap;
 static int WL_MUST[NS_MAXPK];   /* bytes per upstream query / downstream fragment in this cell */
@@ -305,6 +307,59 @@ static void cells_inject(void)
 	{ cell c; memset(&c, 0, sizeof c); c.ml = 255; c.lazy = 1; c.raw = 1; c.lat = 2; c.wl = 3; c.inj = 1; add_cell(c); }
 }
 
+/* C01, stale duplicates with adversarial contents.  The property quantifies over all packet contents and over duplication with
+ * bounded delay.  Nine two-fragment upstream packets, 500 ms apart; packet 8 re-uses the 3-bit sequence number of packet 0 and
+ * is packet 0 with three consecutive bytes of its first fragment changed by +1, -2, +1 (which leaves zlib's Adler-32 of any
+ * stream containing them unchanged) and a different second half; all are incompressible (stored deflate blocks, equal lengths).
+ * The one deviation: the query carrying fragment 0 of packet 0 is duplicated and the copy arrives k packets later (k = 2..8).
+ * If the server ever joins the stale first fragment with the second fragment of packet 8, the result inflates without error
+ * and is a packet nobody sent. */
+static int stale_k; static int stale_done; static int64_t stale_gap_us = 500000;
+static int stale_fate(int d, int to_server)
+{
+	vw_dgram *g = &W.dg[d];
+	if (!to_server || stale_done || g->len < 20) return 0;
+	if (g->len >= 3 && g->data[0] == 0x10 && g->data[1] == 0xd1 && g->data[2] == 0x9e) return 0;
+	/* first upstream data query after the workload has started: first label begins with the userid hex digit */
+	int c = g->data[13];
+	if (!isxdigit(c)) return 0;
+	stale_done = 1;
+	int si = vw_sock_find(&g->dst);
+	if (si < 0) return 0;
+	int cl = vw_dgram_clone(d);
+	vw_deliver_at(cl, si, W.now + NC.lat_up + (int64_t)stale_k * stale_gap_us - 150000);
+	if (ns_trace) printf("    fate: duplicate delivered %d packets later\n", stale_k);
+	return 0;
+}
+static void stale_workload(int64_t t0)
+{
+	static unsigned char p[9][4000]; int n = 0;
+	int size = up_chunk_cap + up_chunk_cap / 2 - 15;          /* compressed = frame + 11: about 1.5 upstream queries */
+	if (size < 60) size = 60; if (size > 3000) size = 3000;
+	for (int i = 0; i < 9; i++) {
+		n = ns_mkpkt(p[i], size, A_SRV, 700 + i, 0);
+		WL_MUST[700 + i] = 0;           /* drops are allowed here; only fabrication is judged */
+	}
+	/* packet 8 = packet 0 with an Adler-neutral change inside the first fragment and a different tail */
+	memcpy(p[8], p[0], n);
+	p[0][40] = 100; p[0][41] = 100; p[0][42] = 100;
+	p[8][40] = 101; p[8][41] = 98; p[8][42] = 101;
+	for (int k = n - 12; k < n; k++) p[8][k] ^= 0x3c;
+	for (int i = 0; i < 9; i++) vw_tun_offer_at(ns_cli_tun[1], t0 + 100000 + (int64_t)i * stale_gap_us, p[i], n, 700 + i);
+}
+static void cells_stale(int full)
+{
+	static const int QTS[] = { 0, 2, 5, 4 };
+	for (unsigned q = 0; q < (full ? 4u : 3u); q++) for (int lazy = 1; lazy >= 0; lazy--) for (int up = 0; up < (full ? 4 : 2); up++) for (int k = 2; k <= 8; k++) {
+		cell c; memset(&c, 0, sizeof c);
+		c.qt = QTS[q]; c.ml = 255; c.lazy = lazy; c.up = up; c.wl = 8; c.stale = k;
+		if (c.qt == 5) c.fs = 50;
+		add_cell(c);
+		/* the same with 5 s between the packets: a packet the server refuses is given up by the client before the next one is offered */
+		if (up == 0 || full) { c.stale = 10 + k; add_cell(c); }
+	}
+}
+
 /* C11: packets cut to sit on the fragment boundaries of the settings the handshake settled on: compressed length k * capacity - 1,
  * + 0, + 1, + 2 for k = 1, 2, in each direction (capacity = bytes per downstream fragment / per upstream query as measured after
  * the handshake).  Incompressible contents, so the compressed length is the frame length plus zlib's 11 bytes. */
@@ -341,7 +396,13 @@ static void viol(const char *what, const char *fmt, ...)
 	xp_violation(sig, "%s", detail);
 }
 
-static void core_viol(const char *sig, const char *detail) { if (!strcmp(PROP, "C01")) viol(sig, "%s", detail); }
+static int cur_stale;
+static void core_viol(const char *sig, const char *detail)
+{
+	if (strcmp(PROP, "C01")) return;
+	if (cur_stale) { char s2[120]; snprintf(s2, sizeof s2, "%s:upstream-fragment-duplicated-and-%d-packets-late", sig, cur_stale);      /* cur_stale = k, whatever the spacing */ viol(s2, "%s", detail); }
+	else viol(sig, "%s", detail);
+}
 static void on_san(const char *sig) { if (hc_san_report(sig, W.cur, "the netsim exploration (real client and server)")) return; xp_count(K_SANNOTES, 1); }
 
 /* ---------------------------------------------------------------- C10 / C14 monitor: queries received vs answers emitted */
@@ -727,7 +788,7 @@ static void run_cell(int job)
 {
 	const cell *c = &CELLS[job];
 	ns_cfg cfg;
-	char desc[200];
+	char desc[420];
 	cell_to_cfg(c, &cfg);
 	cell_desc(c, desc, sizeof desc);
 	memset(PEND, 0, sizeof PEND); memset(FST, 0, sizeof FST);
@@ -782,10 +843,11 @@ static void run_cell(int job)
 	if (!strcmp(PROP, "C11") && !c->two) xp_count(K_SWEEP, offer_boundary_sweep(WLS[c->wl].n + 1, t0 + 9000000));
 	XC.budget = BUDGET;
 	ns_choices_on = BUDGET > 0;
+	if (c->stale) { ns_choices_on = 0; ns_extra_fate = stale_fate; stale_k = cur_stale = c->stale % 10; stale_gap_us = c->stale >= 10 ? 5000000 : 500000; stale_done = 0; stale_workload(t0); }
 	if (c->inj) { ns_choices_on = 0; ns_extra_fate = inject_fate; inj_done = 0; inj_until = t0 + (int64_t)(HORIZON_S - 5) * 1000000; }
 	if (want_c16) ns_fate_mask = 0;          /* the only deviation is the re-delivery */
 	XC.ncp = 0;
-	run_to_horizon(t0 + (int64_t)HORIZON_S * 1000000, 60000);
+	run_to_horizon(t0 + (int64_t)(c->stale >= 10 ? 54 : c->stale ? 32 : HORIZON_S) * 1000000, 60000);      /* stale cells: three packets may each take the client's give-up time before packet 8 is sent */
 	/* end of execution */
 	int up = 0, down = 0, rep = 0;
 	for (int i = 0; i < ns_nwr; i++) {
@@ -876,6 +938,7 @@ int main(int argc, char **argv)
 	} else {
 		cells_full(0, 0); PHASE(0);
 		cells_pairwise(0, 0); cells_pairwise(1, 2); PHASE(1);
+		if (!strcmp(PROP, "C01")) { cells_stale(thorough); PHASE(0); }
 		if (thorough) { cells_full(0, 0); PHASE(1); cells_pairwise(1, 0); PHASE(2); }
 	}
 	xp_init(hc_san_as ? hc_san_as : PROP, a.tier, 1 << 22, a.budget_s);
